@@ -240,7 +240,7 @@ pub fn run(tier: Tier) -> i32 {
         .iter()
         .enumerate()
         .flat_map(|(fi, _)| seqs.iter().map(move |s| (fi, s)))
-        .chain(files.iter().enumerate().filter(|(fi, _)| fi % 8 == 0).flat_map(|(fi, _)| seqs3.iter().map(move |s| (fi, s))))
+        .chain(files.iter().enumerate().filter(|(fi, _)| fi % 2 == 0).flat_map(|(fi, _)| seqs3.iter().map(move |s| (fi, s))))
         .collect();
     let results: Vec<Vec<(String, String, usize, Vec<usize>, u8, bool)>> = work
         .par_iter()
@@ -270,10 +270,10 @@ pub fn run(tier: Tier) -> i32 {
     rep.set("corpus_files", files.len());
     rep.set("read_only_operations", n);
     rep.set("sequences_per_file", seqs.len());
-    rep.set("length_3_sequences_on_every_8th_file", seqs3.len());
+    rep.set("length_3_sequences_on_every_2nd_file", seqs3.len());
     rep.set("sessions", total);
     rep.set("exhaustive", true);
-    rep.set("rule", "every corpus file x every sequence of read-only calls of length <= 2 (thorough: <= 3 on every 8th file) over 16 read-only operations x {flush, into_inner, drop} x {read-write, write-refusing medium}; oracle: the medium counted zero write calls, its bytes are identical, and the session did not fail. distinct_nontrivial = (file, sequence) pairs");
+    rep.set("rule", "every corpus file x every sequence of read-only calls of length <= 2 (thorough: <= 3 on every 2nd file) over 16 read-only operations x {flush, into_inner, drop} x {read-write, write-refusing medium}; oracle: the medium counted zero write calls, its bytes are identical, and the session did not fail. distinct_nontrivial = (file, sequence) pairs");
     rep.sample(json!({"file": files[files.len() / 2].0, "sequence": ["select-all", "inner-join"], "close": "drop"}));
     rep.finish()
 }
